@@ -168,3 +168,37 @@ def run(repo: Repo, chk: Check) -> None:
         chk.ob('R-FLOW', q, uses_memo, '__deepcopy__ forwards its memo (the context reference follows the snapshot)', dc.loc,
                {'memo_parameter': memo, 'body': norm(dc.node)[:200]},
                what=f'{ci.name}.__deepcopy__ ignores the memo and keeps the live context by reference: a snapshot of the stack shares the context with the failing run')
+
+
+    # ---- 3 snapshot completeness: a value class that copies itself by hand must carry every field its constructor sets --------------------
+    chk.set_clause('C22.3')
+    ncopy = 0
+    for q in repo.subclasses('pytezos.michelson.types.base.MichelsonType'):
+        ci = repo.classes[q]
+        dc = ci.methods.get('__deepcopy__')
+        if dc is None:
+            continue
+        # the function that builds the copy: __deepcopy__ itself or the single method it delegates to
+        target = dc
+        calls = [c for c in ast.walk(dc.node) if isinstance(c, ast.Call) and isinstance(c.func, ast.Attribute) and isinstance(c.func.value, ast.Name) and c.func.value.id == 'self']
+        if len(calls) == 1 and calls[0].func.attr in ci.methods:
+            target = ci.methods[calls[0].func.attr]
+        init = repo.find_method(q, '__init__')
+        if init is None:
+            continue
+        assigned = {t.attr for n in ast.walk(init.node) if isinstance(n, (ast.Assign, ast.AnnAssign))
+                    for t in (n.targets if isinstance(n, ast.Assign) else [n.target])
+                    if isinstance(t, ast.Attribute) and isinstance(t.value, ast.Name) and t.value.id == 'self'}
+        if repo.is_subclass(q, 'pytezos.michelson.types.map.MapType'):
+            assigned.add('items')  # set by the parent constructor
+        fields = sorted(assigned)
+        # fields read from self inside the copying function (as constructor arguments or assigned onto the result)
+        carried = sorted({n.attr for n in ast.walk(target.node) if isinstance(n, ast.Attribute) and isinstance(n.ctx, ast.Load)
+                          and isinstance(n.value, ast.Name) and n.value.id == 'self' and n.attr in fields})
+        missing = [f for f in fields if f not in carried]
+        ncopy += 1
+        chk.ob('R-FLOW', target.qualname, not missing, f'the hand-written copy carries every field of the value ({", ".join(fields)})', target.loc,
+               {'fields_set_by_constructor': fields, 'fields_copied': carried},
+               what=f'{target.qualname} builds the copy without {missing}: the stack snapshot taken before a REPL cell (and DUP) loses that part of the value, '
+                    f'so a failing cell changes what a later COMMIT / BIG_MAP_DIFF reports')
+    chk.minimum('value classes with a hand-written copy', ncopy, 1)
